@@ -141,7 +141,7 @@ pub struct Scen16 {
     pub churn: Vec<(usize, usize, u8)>,
 }
 
-const N_FAIL_KINDS: u8 = 16;
+const N_FAIL_KINDS: u8 = 22;
 
 fn base_packet() -> Vec<u8> {
     // response with a question and three A answers; built by the harness codec
@@ -165,6 +165,17 @@ fn base_packet() -> Vec<u8> {
         sec: [vec![rec(1), rec(2), rec(3)], vec![], vec![]],
     };
     codec::encode_literal(&m)
+}
+
+/// the base packet with an 8100-byte opaque record in the additional section (8192 is near)
+fn big_packet() -> Vec<u8> {
+    let mut p = base_packet();
+    let filler = vec![b'f'; 8100];
+    p.extend_from_slice(&[0, 0, 99, 0, 1, 0, 0, 0, 1]);
+    p.extend_from_slice(&(filler.len() as u16).to_be_bytes());
+    p.extend_from_slice(&filler);
+    p[11] += 1;
+    p
 }
 
 struct CbCtx {
@@ -206,8 +217,9 @@ unsafe extern "C" fn cb16(ctx: *mut c_void, it: *const SectionIterator) -> bool 
                 0,
             );
         }
-        12 | 13 | 14 | 15 => {
+        12 | 13 | 14 | 15 | 21 => {
             let nm: Vec<u8> = match ctx.kind {
+                21 => vec![1, b'a'],
                 12 => vec![5, b'a', b'b'],
                 13 => vec![],
                 14 => vec![3, b'a', b'.', b'b', 0],
@@ -231,6 +243,19 @@ unsafe extern "C" fn cb16(ctx: *mut c_void, it: *const SectionIterator) -> bool 
         _ => {}
     }
     true
+}
+
+fn long_txt() -> String {
+    format!("example.com. 60 IN TXT \"{}\"", "x".repeat(5000))
+}
+
+fn long_owner_text() -> String {
+    let mut s = String::new();
+    for _ in 0..63 {
+        s.push_str("abc.");
+    }
+    s.push_str("example.com. 60 IN A 192.0.2.1");
+    s
 }
 
 /// Text of the native error for the same failing call (so that rewording messages cannot raise
@@ -285,6 +310,35 @@ fn native_fail_text(kind: u8, bytes: &[u8]) -> Option<String> {
             it.set_raw_name(&[0xc0, 0x0c]).err().map(|e| e.to_string())
         }
         11 => dgen::raw_name_from_str(b"a..b", None).err().map(|e| e.to_string()),
+        19 => parse()?
+            // the renamer accepts the new name, the re-parse refuses its characters
+            .rename_with_raw_names(b"\x03a.b\x00", b"\x07example\x03com\x00", true)
+            .err()
+            .map(|e| e.to_string()),
+        20 => DNSSector::new(big_packet())
+            .ok()?
+            .parse()
+            .ok()?
+            .insert_rr_from_string(Section::Answer, "big.example.com. 60 IN A 192.0.2.1")
+            .err()
+            .map(|e| e.to_string()),
+        21 => {
+            let mut p = parse()?;
+            let mut it = p.into_iter_answer()?;
+            it.set_raw_name(&[1, b'a']).err().map(|e| e.to_string())
+        }
+        16 => parse()?
+            .insert_rr_from_string(Section::Answer, &long_txt())
+            .err()
+            .map(|e| e.to_string()),
+        17 => parse()?
+            .insert_rr_from_string(Section::Answer, &long_owner_text())
+            .err()
+            .map(|e| e.to_string()),
+        18 => parse()?
+            .insert_rr_from_string(Section::Answer, "example.com. 60 IN MX 70000 mx.example.com.")
+            .err()
+            .map(|e| e.to_string()),
         12 | 13 | 14 | 15 => {
             let nm: Vec<u8> = match kind {
                 12 => vec![5, b'a', b'b'],
@@ -324,6 +378,28 @@ unsafe fn table_fail(t: &FnTable, err: &mut *const CErr, kind: u8, bytes: &[u8])
             let s = CString::new("second.example. 60 IN A 192.0.2.9").unwrap();
             (t.add_to_question)(&mut pp, err, s.as_ptr())
         }
+        19 => {
+            let src = b"\x07example\x03com\x00";
+            let tgt = b"\x03a.b\x00";
+            (t.rename_with_raw_names)(&mut pp, err, tgt.as_ptr(), tgt.len(), src.as_ptr(), src.len(), true)
+        }
+        20 => {
+            let mut big = match DNSSector::new(big_packet()).and_then(|d| d.parse()) {
+                Ok(p) => p,
+                Err(_) => return (0, None),
+            };
+            let s = CString::new("big.example.com. 60 IN A 192.0.2.1").unwrap();
+            (t.add_to_answer)(&mut big, err, s.as_ptr())
+        }
+        16 | 17 | 18 => {
+            let text = match kind {
+                16 => long_txt(),
+                17 => long_owner_text(),
+                _ => "example.com. 60 IN MX 70000 mx.example.com.".to_string(),
+            };
+            let s = CString::new(text).unwrap();
+            (t.add_to_answer)(&mut pp, err, s.as_ptr())
+        }
         2 | 3 | 4 | 5 => {
             let name: Vec<u8> = match kind {
                 2 => b"a..b".to_vec(),
@@ -352,7 +428,7 @@ unsafe fn table_fail(t: &FnTable, err: &mut *const CErr, kind: u8, bytes: &[u8])
             let tgt = b"\x00";
             (t.rename_with_raw_names)(&mut pp, err, tgt.as_ptr(), tgt.len(), src.as_ptr(), src.len(), false)
         }
-        8..=15 => {
+        8..=15 | 21 => {
             let mut ctx = CbCtx {
                 table: t,
                 err: *err,
@@ -469,9 +545,10 @@ fn exec16(sc: &Scen16) -> (Option<Violation>, u64, Stats, bool) {
         for (at, count, kind) in &sc.churn {
             if *at == pos {
                 let bytes = base_packet();
-                for _ in 0..*count {
+                for n in 0..*count {
                     let b = bytes.clone();
-                    let kind = *kind;
+                    // kind 255: cycle through every failure kind (many distinct descriptions)
+                    let kind = if *kind == 255 { (n % N_FAIL_KINDS as usize) as u8 } else { *kind };
                     let h = std::thread::Builder::new().stack_size(1 << 18).spawn(move || {
                         let table = dnssector::fn_table();
                         let mut err: *const CErr = std::ptr::null();
@@ -595,7 +672,9 @@ fn gen16(rng: &mut Rng) -> Scen16 {
     let mut churn = Vec::new();
     if rng.chance(1, 12) {
         let at = rng.below(schedule.len().max(1));
-        churn.push((at, rng.range(30, 70), rng.below(N_FAIL_KINDS as usize) as u8));
+        let count = if rng.chance(1, 6) { rng.range(260, 320) } else { rng.range(30, 70) };
+        let kind = if rng.bool() { 255 } else { rng.below(N_FAIL_KINDS as usize) as u8 };
+        churn.push((at, count, kind));
     }
     Scen16 {
         threads,
@@ -647,7 +726,10 @@ pub enum Call17 {
     },
     FromString(String),
     RawName(#[serde(with = "crate::ops::hexbytes")] Vec<u8>),
+    /// name conversion through the C table entry `raw_name_from_str`
+    TableRawName(#[serde(with = "crate::ops::hexbytes")] Vec<u8>),
     Query(String, u16),
+    Empty,
 }
 
 impl Call17 {
@@ -660,7 +742,9 @@ impl Call17 {
             Call17::Rename { .. } => "rename",
             Call17::FromString(_) => "rr_from_string",
             Call17::RawName(_) => "raw_name_from_str",
+            Call17::TableRawName(_) => "table_raw_name_from_str",
             Call17::Query(..) => "gen_query",
+            Call17::Empty => "empty_packet",
         }
     }
 }
@@ -717,6 +801,33 @@ pub fn eval17(c: &Call17) -> String {
             Ok(v) => format!("ok {}", codec::hex(&v)),
             Err(e) => format!("err {}", e),
         },
+        Call17::TableRawName(n) => {
+            let t = dnssector::fn_table();
+            let mut raw = [0u8; 256];
+            let mut raw_len: usize = 0;
+            let mut err: *const CErr = std::ptr::null();
+            let rc = unsafe {
+                (t.raw_name_from_str)(&mut raw, &mut raw_len, &mut err, n.as_ptr() as *const _, n.len())
+            };
+            if rc == 0 {
+                format!("ok {}", codec::hex(&raw[..raw_len.min(256)]))
+            } else {
+                let d = unsafe { CStr::from_ptr((t.error_description)(err)) };
+                format!("err {}", d.to_string_lossy())
+            }
+        }
+        Call17::Empty => {
+            let p = ParsedPacket::empty();
+            // only the transaction id (bytes 0-1) may vary
+            format!(
+                "ok {} {:?} {:?} {} {}",
+                codec::hex(&p.packet()[2..]),
+                p.offset_question,
+                p.offset_edns,
+                p.maybe_compressed,
+                p.max_payload
+            )
+        }
         Call17::Query(name, ty) => {
             let t = match *ty {
                 28 => Type::AAAA,
@@ -825,18 +936,79 @@ fn gen17(rng: &mut Rng) -> Scen17 {
                     suffix: rng.chance(2, 3),
                 }
             }
-            9 => Call17::FromString(gen::gen_rr_text(rng)),
-            10 => Call17::RawName(gen::gen_ldh_name(rng).text()),
-            _ => Call17::Query(
-                String::from_utf8_lossy(&gen::gen_ldh_name(rng).text()).into_owned(),
-                *rng.pick(&[1u16, 28, 15]),
-            ),
+            9 => {
+                let t = gen::gen_rr_text(rng);
+                if rng.chance(1, 5) {
+                    Call17::FromString(gen::damage_rr_text(rng, &t))
+                } else if rng.chance(1, 4) {
+                    // same owner up to letter case as some other record text is likely to have
+                    Call17::FromString(t.to_ascii_uppercase().replace(" IN ", " IN ").replace("\tIN", "\tIN"))
+                } else {
+                    Call17::FromString(t)
+                }
+            }
+            10 => {
+                let good = gen::gen_ldh_name(rng).text();
+                let bad: Vec<u8> = rng
+                    .pick(&[&b"ab.c..d"[..], &b"first.xxxxxxxxxxxxxxxxxxxxxxxxxxxxxxxxxxxxxxxxxxxxxxxxxxxxxxxxxxxxxxxxxxxxxx.org"[..], &b"a.b\xc3\xa9.c"[..], &b"..x"[..]])
+                    .to_vec();
+                match rng.below(4) {
+                    0 => Call17::RawName(good),
+                    1 => Call17::RawName(bad),
+                    2 => Call17::TableRawName(good),
+                    _ => Call17::TableRawName(bad),
+                }
+            }
+            _ => {
+                if rng.chance(1, 4) {
+                    Call17::Empty
+                } else {
+                    Call17::Query(
+                        String::from_utf8_lossy(&gen::gen_ldh_name(rng).text()).into_owned(),
+                        *rng.pick(&[1u16, 28, 15]),
+                    )
+                }
+            }
         });
     }
+    // twins: the same rename with the other matching mode, so that both modes meet back to back
+    let mut twins: Vec<(usize, usize)> = Vec::new();
+    for i in 0..calls.len() {
+        if let Call17::Rename {
+            packet,
+            target,
+            source,
+            suffix,
+        } = &calls[i]
+        {
+            if rng.chance(1, 2) && calls.len() < 40 {
+                let twin = Call17::Rename {
+                    packet: packet.clone(),
+                    target: target.clone(),
+                    source: source.clone(),
+                    suffix: !*suffix,
+                };
+                calls.push(twin);
+                twins.push((i, calls.len() - 1));
+            }
+        }
+    }
+    let n = calls.len();
     let mut order = Vec::new();
     let m = rng.range(n, 3 * n);
     for _ in 0..m {
         order.push(rng.below(n));
+        if !twins.is_empty() && rng.chance(1, 6) {
+            // a twin pair, adjacent, in either order
+            let (a, b) = *rng.pick(&twins);
+            if rng.bool() {
+                order.push(a);
+                order.push(b);
+            } else {
+                order.push(b);
+                order.push(a);
+            }
+        }
     }
     let k = rng.range(2, 4);
     let mut threads = vec![Vec::new(); k];
@@ -1114,5 +1286,26 @@ pub fn minimise(prop: &str, scenario: &Value, sig: &str, budget: usize) -> Value
             json!({"scenario": best, "candidates": tried})
         }
         _ => json!({"scenario": scenario, "candidates": 0}),
+    }
+}
+
+#[cfg(test)]
+mod tests {
+    use super::*;
+    #[test]
+    fn all_fail_kinds_fail_with_native_text() {
+        let t = dnssector::fn_table();
+        let bytes = base_packet();
+        let mut texts = std::collections::BTreeSet::new();
+        for k in 0..N_FAIL_KINDS {
+            let mut err: *const CErr = std::ptr::null();
+            let (rc, exp) = unsafe { table_fail(&t, &mut err, k, &bytes) };
+            assert_eq!(rc, -1, "kind {} did not fail", k);
+            let exp = exp.unwrap_or_else(|| panic!("kind {} has no native text", k));
+            let got = unsafe { CStr::from_ptr((t.error_description)(err)) }.to_string_lossy().into_owned();
+            assert_eq!(got, exp, "kind {}", k);
+            texts.insert(exp);
+        }
+        assert!(texts.len() >= 17, "only {} distinct texts", texts.len());
     }
 }
